@@ -1,2 +1,187 @@
-From Coq Require Import ZArith.
-Theorem placeholder : True. Proof. exact I. Qed.
+(* C17/Properties.v — partition_parallel returns a stripe-ordered permutation of its input.
+   Statements only; each is closed by `exact` of a lemma of the Proofs*.v files.  The model is Model.partition_model
+   (hand-written, statement by statement, pinned to tsc.py by the shape sites of tools/gen/c17.py and validated
+   against the compiled kernel on every run); the key expression is Gen.key_expr, regenerated from tsc.py.
+
+   `preconditions` (ProofsTop.v): nthread >= 1, npartition >= 1, the block boundaries are ANY non-decreasing sequence
+   0 = tstart[0] <= ... <= tstart[nthread] = N, every key lies in [0, npartition), and the np.empty arrays
+   (keys0, psort0, wsort0: arbitrary content) have the lengths the code allocates. *)
+From Coq Require Import ZArith QArith Qround List Bool Permutation Sorted.
+From Abacus.Common Require Import Arr Par.
+From Abacus.C17 Require Import Gen Model Spec Lib Mat Blocks Proofs ProofsCor ProofsPar ProofsSort ProofsKey ProofsTop.
+Import ListNotations.
+Local Open Scope Z_scope.
+
+(* ★ For every thread count and every monotone block-boundary sequence the model returns Ok (no out-of-bounds access):
+   psort = stripe 0 ++ stripe 1 ++ ... ++ stripe (np-1), each stripe in input order (stable); starts = [#{key<k}];
+   weights permuted like the positions.  The right-hand side mentions neither nthread nor tstart nor the initial
+   content of the np.empty arrays. *)
+Theorem partition_is_stable_counting_sort :
+  forall (P W C : Type) (keyf : P -> Z) (cv : P -> C) (argsort : list C -> list nat)
+    nthread npartition tstart pos (wts : option (list W)) keys0 psort0 wsort0,
+  preconditions keyf nthread npartition tstart pos wts keys0 psort0 wsort0 ->
+  partition_model P W C keyf cv argsort nthread npartition tstart pos wts false keys0 psort0 wsort0
+  = Ok (stable_counting_sort keyf npartition pos, starts_spec keyf npartition pos, weights_spec keyf npartition pos wts).
+Proof. exact main_lemma. Qed.
+Print Assumptions partition_is_stable_counting_sort.
+
+(* the output is a permutation of the input *)
+Theorem output_is_permutation : forall (P : Type) (keyf : P -> Z) npartition (pos : list P),
+  (forall x, In x pos -> 0 <= keyf x < npartition) ->
+  Permutation pos (stable_counting_sort keyf npartition pos).
+Proof. exact permutation_lemma. Qed.
+Print Assumptions output_is_permutation.
+
+(* ★ weights move with their positions: the output pairs (psort[i], wsort[i]) are the stable counting sort of the input
+   pairs (pos[i], weights[i]) — in particular a permutation of them. *)
+Theorem weights_move_with_positions :
+  forall (P W C : Type) (keyf : P -> Z) (cv : P -> C) (argsort : list C -> list nat)
+    nthread npartition tstart pos (w : list W) keys0 psort0 wsort0,
+  preconditions keyf nthread npartition tstart pos (Some w) keys0 psort0 wsort0 ->
+  exists psort starts wsort,
+    partition_model P W C keyf cv argsort nthread npartition tstart pos (Some w) false keys0 psort0 wsort0
+      = Ok (psort, starts, Some wsort) /\
+    combine psort wsort = stable_counting_sort (fun pw => keyf (fst pw)) npartition (combine pos w) /\
+    Permutation (combine pos w) (combine psort wsort).
+Proof. exact weights_lemma. Qed.
+Print Assumptions weights_move_with_positions.
+
+(* ★ the start offsets returned (starts_spec, by the first theorem): npartition+1 of them, from 0 to N, non-decreasing,
+   and stripe k of the input occupies exactly the cells [starts k, starts (k+1)) of the output *)
+Theorem starts_properties : forall (A : Type) (key : A -> Z) np xs,
+  1 <= np -> (forall x, In x xs -> 0 <= key x < np) ->
+  let st := starts_spec key np xs in
+  len st = np + 1 /\ nth 0 st 0 = 0 /\ nth (Z.to_nat np) st 0 = len xs /\
+  (forall k, 0 <= k < np -> nth (Z.to_nat k) st 0 <= nth (Z.to_nat (k + 1)) st 0) /\
+  (forall k, 0 <= k < np ->
+     seg (stable_counting_sort key np xs) (nth (Z.to_nat k) st 0) (nth (Z.to_nat (k + 1)) st 0) = stripe key k xs).
+Proof. exact starts_properties_lemma. Qed.
+Print Assumptions starts_properties.
+
+(* the result does not depend on the thread count, the block boundaries, or the uninitialised memory *)
+Theorem independent_of_thread_count :
+  forall (P W C : Type) (keyf : P -> Z) (cv : P -> C) (argsort : list C -> list nat)
+    npartition pos (wts : option (list W))
+    nthread1 tstart1 keys1 psort1 wsort1 nthread2 tstart2 keys2 psort2 wsort2,
+  preconditions keyf nthread1 npartition tstart1 pos wts keys1 psort1 wsort1 ->
+  preconditions keyf nthread2 npartition tstart2 pos wts keys2 psort2 wsort2 ->
+  partition_model P W C keyf cv argsort nthread1 npartition tstart1 pos wts false keys1 psort1 wsort1
+  = partition_model P W C keyf cv argsort nthread2 npartition tstart2 pos wts false keys2 psort2 wsort2.
+Proof. exact independence_lemma. Qed.
+Print Assumptions independent_of_thread_count.
+
+(* ★ the write cursors: the model's pointers array is ptr (first clause); the cell ranges [ptr t k, ptr t k + cnt t k)
+   tile [0, N) in (k, t) lexicographic order (next four clauses); thread t writes particle j of its block into its own
+   cell (t, key j), at the cell start plus the rank of j among the earlier particles of the block with that key. *)
+Theorem cell_ranges_tile : forall (P : Type) (keyf : P -> Z) nthread npartition tstart (pos : list P),
+  1 <= nthread -> 1 <= npartition -> boundaries_ok nthread tstart (len pos) ->
+  (forall x, In x pos -> 0 <= keyf x < npartition) ->
+  let fk := map keyf pos in
+  let ptr := ptr0 tstart fk in let cnt := bcount tstart fk in
+  (forall counts, shaped nthread npartition counts ->
+     (forall t k, 0 <= t < nthread -> 0 <= k < npartition -> cell counts t k = cnt t k) ->
+     pointers_of nthread npartition counts = Ok (tabulate2 nthread npartition ptr)) /\
+  ptr 0 0 = 0 /\
+  (forall t k, 0 <= t < nthread -> ptr (t + 1) k = ptr t k + cnt t k) /\
+  (forall k, ptr nthread k = ptr 0 (k + 1)) /\
+  ptr 0 npartition = len pos /\
+  (forall t j, 0 <= t < nthread -> ts tstart t <= j < ts tstart (t + 1) ->
+     let k := kj fk j in
+     Z.of_nat (ndest fk (Z.to_nat j)) = ptr t k + Z.of_nat (ncnt k (seg fk (ts tstart t) j)) /\
+     ptr t k <= Z.of_nat (ndest fk (Z.to_nat j)) < ptr t k + cnt t k).
+Proof. exact tiles_lemma. Qed.
+Print Assumptions cell_ranges_tile.
+
+(* ★ the threads of the scatter phase (ProofsPar.threads: per particle  load cursor; store psort[s]; [store wsort[s];]
+   load cursor; store cursor+1, with s the cursor value of the sequential model) have pairwise disjoint footprints:
+   no output cell and no cursor cell is touched by two threads *)
+Theorem thread_writes_disjoint : forall (P W : Type) (keyf : P -> Z) nthread npartition tstart (pos : list P)
+    (wts : option (list W)),
+  1 <= nthread -> 1 <= npartition -> boundaries_ok nthread tstart (len pos) ->
+  (forall x, In x pos -> 0 <= keyf x < npartition) ->
+  disjoint_footprints (threads P W keyf nthread npartition tstart pos wts).
+Proof. exact thread_writes_disjoint_lemma. Qed.
+Print Assumptions thread_writes_disjoint.
+
+(* ... hence every interleaving that lets all threads finish leaves the stable counting sort in psort (cells 0..N-1)
+   and the equally permuted weights in wsort, whatever the arrays contained before: each cell is written (exactly once) *)
+Theorem scatter_any_schedule : forall (P W : Type) (keyf : P -> Z) nthread npartition tstart (pos : list P)
+    (wts : option (list W)),
+  1 <= nthread -> 1 <= npartition -> boundaries_ok nthread tstart (len pos) ->
+  (forall x, In x pos -> 0 <= keyf x < npartition) ->
+  forall (sch : list nat) (m0 : store (pv P W)) (d : pv P W),
+  (forall t, (t < length (threads P W keyf nthread npartition tstart pos wts))%nat ->
+     (length (nth t (threads P W keyf nthread npartition tstart pos wts) []) <= count_occ Nat.eq_dec sch t)%nat) ->
+  forall c, 0 <= c < len pos ->
+    fst (run sch (init (threads P W keyf nthread npartition tstart pos wts) m0 d)) (ploc c)
+      = VP (nth_error (stable_counting_sort keyf npartition pos) (Z.to_nat c)) /\
+    (forall w, wts = Some w -> len w = len pos ->
+       fst (run sch (init (threads P W keyf nthread npartition tstart pos wts) m0 d)) (wloc P pos c)
+       = VW (nth_error (map snd (stable_counting_sort (fun pw => keyf (fst pw)) npartition (combine pos w))) (Z.to_nat c))).
+Proof. exact scatter_any_schedule_cells. Qed.
+Print Assumptions scatter_any_schedule.
+
+(* sort=True, one stripe (partial).
+   STATED-UNPROVED: sorted_option — for sort = true, under the two argsort hypotheses below,
+     partition_model ... true ... = Ok (psort', starts_spec ..., wsort') with, for every stripe k,
+     seg psort' (starts k) (starts (k+1)) Sorted on the coordinate and a Permutation of stripe k (weights permuted alike).
+   Proved instead (sort_step_on_a_stripe): ONE iteration of the sort loop, for an arbitrary stripe [a,b) of arbitrary
+   arrays: Ok (no out-of-bounds access), nothing outside the stripe changes, the stripe becomes a sorted permutation of
+   itself and the weights are rearranged by the same indices.  The composition over the npartition iterations rests on
+   the correspondence run (sort=True cases are judged by predicate and, when the sorted order is unique, compared exactly). *)
+Theorem sort_step_on_a_stripe_partial :
+  forall (P W C : Type) (cv : P -> C) (cle : C -> C -> Prop) (argsort : list C -> list nat)
+         (has_w : bool) (starts : list Z) (i : Z) (pre part post : list P) (wpre wpart wpost : list W),
+  0 <= i -> i + 1 < len starts ->
+  nth (Z.to_nat i) starts 0 = len pre -> nth (Z.to_nat (i + 1)) starts 0 = len pre + len part ->
+  len wpre = len pre -> len wpart = len part ->
+  let iord := argsort (map cv part) in
+  Permutation iord (seq 0 (length (map cv part))) ->       (* what argsort is assumed to return on this call: *)
+  Sorted cle (gather (map cv part) iord) ->                (* a permutation of the indices that sorts its argument *)
+  sort_step P W C cv argsort has_w starts i (pre ++ part ++ post, wpre ++ wpart ++ wpost)
+  = Ok (pre ++ gather part iord ++ post, if has_w then wpre ++ gather wpart iord ++ wpost else wpre ++ wpart ++ wpost)
+  /\ Permutation (gather part iord) part
+  /\ Sorted cle (map cv (gather part iord))
+  /\ Permutation (combine (gather part iord) (gather wpart iord)) (combine part wpart).
+Proof. exact sort_step_spec_lemma. Qed.
+Print Assumptions sort_step_on_a_stripe_partial.
+
+(* empty input: Ok, empty outputs, all offsets 0 — for every thread count *)
+Theorem empty_input :
+  forall (P W C : Type) (keyf : P -> Z) (cv : P -> C) (argsort : list C -> list nat)
+    nthread npartition tstart (wts : option (list W)),
+  1 <= nthread -> 1 <= npartition -> boundaries_ok nthread tstart 0 ->
+  (forall w, wts = Some w -> w = []) ->
+  partition_model P W C keyf cv argsort nthread npartition tstart [] wts false [] [] []
+  = Ok ([], map (fun _ => 0) (upto (npartition + 1)), option_map (fun _ => []) wts).
+Proof. exact empty_input_lemma. Qed.
+Print Assumptions empty_input.
+
+(* more threads than particles (some blocks are empty: repeated boundaries) is an instance of the first theorem *)
+Theorem more_threads_than_particles :
+  forall (P W C : Type) (keyf : P -> Z) (cv : P -> C) (argsort : list C -> list nat)
+    nthread npartition tstart pos (wts : option (list W)) keys0 psort0 wsort0,
+  len pos < nthread ->
+  preconditions keyf nthread npartition tstart pos wts keys0 psort0 wsort0 ->
+  partition_model P W C keyf cv argsort nthread npartition tstart pos wts false keys0 psort0 wsort0
+  = Ok (stable_counting_sort keyf npartition pos, starts_spec keyf npartition pos, weights_spec keyf npartition pos wts).
+Proof. exact more_threads_lemma. Qed.
+Print Assumptions more_threads_than_particles.
+
+(* the generated key expression (tsc.py: min(np.int32(pos[i,coord]*inv_pwidth), npartition-1)) is
+   min(floor(x*np/box), np-1) and lies in [0, np) on the documented domain 0 <= x <= box *)
+Theorem key_spec : forall np box x,
+  1 <= np -> (0 < box)%Q -> (0 <= x)%Q -> (x <= box)%Q ->
+  key_expr np box x = stripe_index np box x /\ 0 <= key_expr np box x < np.
+Proof. exact key_spec_lemma. Qed.
+Print Assumptions key_spec.
+
+(* stripe s holds exactly floor(x*np/box) = s, except that the last stripe is closed above *)
+Theorem key_below_box : forall np box x,
+  1 <= np -> (0 < box)%Q -> (0 <= x)%Q -> (x < box)%Q -> key_expr np box x = Qfloor (x * inject_Z np / box).
+Proof. exact key_below_box_lemma. Qed.
+Print Assumptions key_below_box.
+
+Theorem key_at_box : forall np box, 1 <= np -> (0 < box)%Q -> key_expr np box box = np - 1.
+Proof. exact key_at_box_lemma. Qed.
+Print Assumptions key_at_box.
